@@ -62,6 +62,33 @@ def _tls_multi(job):
     return dict(bad=bad, descs=descs, n=n)
 
 
+def _tls_reuse(job):
+    """two TLS 1.3 connections WITHOUT compatibility ChangeCipherSpec one after the other on the SAME 4-tuple (the client reuses its port): the
+    session sees a second ClientHello; the keys installed after it must be those of the second client random"""
+    seeds, code, partial = job
+    cds = [dict(ver=R.TLS13, suite=code, seed=sd, shape=dict(ccs13=False, hs_in_log=not (partial and i == 1)), app=[["c", 20], ["s", 30]],
+                flow=dict(idx=0), isn=(1000 + 500000 * i, 9000 + 700000 * i)) for i, sd in enumerate(seeds)]
+    try:
+        from harness.tlsrun import build_conn
+        from wire.capture import segment
+        ns = [len(segment(build_conn(cd), i)) for i, cd in enumerate(cds)]
+        cap, conns, flows, res, obs, o = run_tls(dict(conns=cds, order=[0] * ns[0] + [1] * ns[1]), trace=True)
+    except Exception:
+        import traceback
+        return dict(machinery=traceback.format_exc()[-1500:])
+    if res.crashed:
+        return dict(bad=["run aborted: " + res.exc.strip().splitlines()[-1]], n=0, job=job)
+    bad, n = [], 0
+    for i, c in enumerate(conns):
+        ev = [e for e in res.events if e["ev"] == "keys" and e.get("proto") == "tls" and e.get("cr") == c.cr.hex()]
+        if not ev:
+            bad.append(f"handshake {i + 1} of 2 on one 4-tuple: no keys installed for its client random")
+            continue
+        n += 1
+        bad += [f"handshake {i + 1} of 2 on one 4-tuple ({c.suite.name}): {b}" for b in compare_slots(c, R.TLS13, cds[i]["shape"], ev[-1]["keys"])]
+    return dict(bad=bad, n=n, job=job)
+
+
 def compare_slots(c, ver, shape, k):
     bad = []
     if True:
@@ -189,7 +216,7 @@ def run(chk):
         mj.append(ds)
     # TLS 1.3 connections with complete and partial key logs in every order (a missing label falls back to the application secret of
     # THE SAME connection, never to anything left over from another one)
-    j13 = [j for j in jobs if j[0] == R.TLS13]
+    j13 = [j for j in jobs if j[0] == R.TLS13] or [(R.TLS13, 0x1301, 0, {}), (R.TLS13, 0x1302, 0, {}), (R.TLS13, 0x1303, 0, {})]
     for _ in range(30 if quick else 400):
         ds = []
         for _k in range(rng.randint(2, 4)):
@@ -205,6 +232,15 @@ def run(chk):
         for b in res["bad"]:
             chk.violation(b, dict(connections=[[v, c_, sd, sh] for v, c_, sd, sh in res["descs"]], why=b))
     chk.extra["connections_checked_inside_multi_connection_captures"] = nm
+    c13 = sorted({j[1] for j in j13})
+    rj = [([rng.randrange(1 << 30), rng.randrange(1 << 30)], rng.choice(c13), rng.random() < 0.3) for _ in range(12 if quick else 200)]
+    for res in pool_map(_tls_reuse, rj):
+        if "machinery" in res:
+            raise Exception("harness: " + res["machinery"])
+        chk.evaluations += 1
+        chk.traces_validated += res["n"]
+        for b in res["bad"]:
+            chk.violation(b, dict(reuse=res["job"], why=b))
     # QUIC
     ku = dict(SuiteSet='{"1301","1302","1303","1304"}', OfferFirst='{"same","other","grease"}', Splits='{<<1>>}', Retries="BOOLEAN", ZeroRtts="{FALSE}", MaxApp="5", MaxGen="3")
     behs = c02.gen(chk, ku, 20 if quick else 300, chk.seed)
